@@ -703,7 +703,10 @@ def judge_rand(world, exe, i, c, got, prev, fail, stats, j):
     small = any(x[1] == 'RANDBETWEEN' and x[3][1] < BIG for x in rand_sites(f))
     if prev is not None and not small:
         before = prev.get('c%d' % i)
-        if before is not None and before != MISSING:
+        # (an error value - e.g. an operand that is #NUM! - hides the site:
+        # nothing is demanded then)
+        if before is not None and before != MISSING and \
+                all(num(x) is not None for x in flat):
             stats['rand_fresh_checked'] += 1
             if before == got:
                 fail('C13.fresh.rand', 'exe %d (%s): cell %d returned %s in '
